@@ -294,3 +294,8 @@ pub use self::metadata::*;
 
 mod recorder;
 pub use self::recorder::*;
+
+#[cfg(metrics_verif)]
+#[doc(hidden)]
+#[path = "verif.rs"]
+pub mod __verif;
